@@ -2,7 +2,7 @@
 import itertools
 import algebra as A
 from algebra import El, ZERO, ONE
-from core import (Harness, VEC, PNT, MAT, sv, sm, ss, Run, Conv, run_specs, report_dropped, ret_leaves, cmp_struct, flat)
+from core import (check_option_inverse, Harness, VEC, PNT, MAT, sv, sm, ss, Run, Conv, run_specs, report_dropped, ret_leaves, cmp_struct, flat)
 import facts
 
 PROP = 'C02'
@@ -68,38 +68,7 @@ def build(tier):
 
 
 def check_invert(run, S, name, spec, kw):
-    n = spec[1]
-    r = run.use_root(S, name)
-    if r is None:
-        run.ob('%s:%s:present' % (PROP, name), False, rule='root-present', expected='root', found='missing')
-        return
-    o = r['out']
-    where = r.get('span')
-    cv = Conv(S)
-    a = sm('a0', n)
-    D = A.det(a)
-    shape_ok = o['k'] == 'ite' and o['t']['k'] == 'ret' and o['e']['k'] == 'ret'
-    if not run.ob('%s:%s:shape' % (PROP, name), shape_ok, rule='K5 guard pass-set', expected='Ite(guard, Return None, Return Some(N))',
-                  found='tree of kind %s with leaves %s' % (o['k'], [l['k'] for g, l in ret_leaves(o)]), where=where):
-        return
-    # (a) the guard is an exact equality test of +-det with zero
-    gt = S.terms[o['c']]
-    gok = False
-    gfound = S.show(o['c'])[:300]
-    if gt[0] == 'a' and gt[1] == 'eq' and len(gt[2]) == 2:
-        x, y = cv.el(gt[2][0]), cv.el(gt[2][1])
-        d = x - y
-        gok = A.eq(d, D) or A.eq(d, -D)
-    run.ob('%s:%s:guard' % (PROP, name), gok, rule='K5 guard pass-set', expected='exact test  det(M) == 0  (Leibniz determinant, up to sign)', found=gfound, where=where)
-    none = o['t']['v']
-    run.ob('%s:%s:none' % (PROP, name), none.get('n') == 'None', rule='K5 guard pass-set', expected='None when the determinant is zero', found=S.showval(none)[:200], where=where)
-    some = o['e']['v']
-    if not run.ob('%s:%s:some' % (PROP, name), some.get('n') == 'Some', rule='K5 guard pass-set', expected='Some(N) when the determinant is non-zero', found=S.showval(some)[:200], where=where):
-        return
-    N = cv.val(some['f'][0])
-    adj = A.adjugate(a)
-    exp = [[adj[c][r] / D for r in range(n)] for c in range(n)]
-    cmp_struct(run, S, name, N, exp, 'K3 field conformance: N = adj(M)/det(M)', where=where, tag='inverse')
+    check_option_inverse(run, S, name, spec[1])
 
 
 def spec_selfcheck():
